@@ -53,7 +53,9 @@ def _case(draw):
     specs_ = draw(st.lists(jw.param_spec(types=_TYPES, for_schema=True), min_size=1, max_size=5))
     return {"params": [jw.enc_spec(s) for s in specs_], "level": draw(st.sampled_from(["instance", "instance", "class"])),
             # instance level only: constraints overridden on the instance's own Parameter objects, state valid under them only
-            "override": draw(st.sampled_from([False, False, True]))}
+            "override": draw(st.sampled_from([False, False, True])),
+            # the state of the first unbounded Number (if any) is a non-finite float: still a number
+            "nonfinite": draw(st.sampled_from([None, None, None, "inf", "-inf", "nan"]))}
 
 
 def strategy(tier):
@@ -90,6 +92,15 @@ def execute(case):
     # bools are not generated as Integer/Number states (see ASSUMPTIONS)
     specs_ = [(t, c, (int(d) if isinstance(d, bool) and t in ("Integer", "Number") else d),
                (int(v) if isinstance(v, bool) and t in ("Integer", "Number") else v)) for t, c, d, v in specs_]
+    if case.get("nonfinite"):
+        for i_, (t, c, d, v) in enumerate(specs_):
+            if t == "Number" and c.get("bounds") is None:
+                specs_[i_] = (t, c, d, float(case["nonfinite"]))
+                res.label("non_finite_number_state")
+                break
+        else:
+            specs_.append(("Number", {}, 0.5, float(case["nonfinite"])))
+            res.label("non_finite_number_state")
     K = jw.build_class(specs_)
     names = [f"p{i}" for i in range(len(specs_))]
     if case["level"] == "class":
@@ -111,6 +122,12 @@ def execute(case):
                 ip.objects = list(ip.objects) + [new]
                 setattr(holder, n, new if t == "Selector" else [new])
                 res.label("instance_level_objects_override")
+            elif t == "List" and cfg.get("item_type") in (int, str) and (cfg.get("bounds") is None or ((cfg["bounds"][1] is None or cfg["bounds"][1] >= 2) and (cfg["bounds"][0] or 0) <= 2)):
+                # the item type is re-declared on the instance; the state is valid under the new one only
+                ip.item_type = (int, str)
+                setattr(holder, n, [1, "a"])
+                cfg["item_type"] = (int, str)
+                res.label("instance_level_item_type_override")
             elif t == "List" and cfg.get("bounds") is not None and cfg["bounds"][1] is not None and cfg.get("item_type") in (None, int):
                 ip.bounds = (0, cfg["bounds"][1] + 2)
                 setattr(holder, n, [1] * (cfg["bounds"][1] + 2))
